@@ -101,10 +101,7 @@ func (w *c13World) notify(uri protocol.DocumentURI, f func()) {
 		f()
 		return
 	}
-	w.s.client = nil
-	f()
-	time.Sleep(5 * time.Millisecond)
-	w.s.client = w.cl
+	zzMuted(w.s, w.cl, f)
 	if c, ok := w.s.GetDocument(uri); ok {
 		w.pending = append(w.pending, c13Task{uri, c})
 	}
